@@ -328,7 +328,9 @@ def gen_router_cases(rng, n, stops):
         cases.append({"id": k + 1, "plan": plan, "threads": rng.randint(1, 8), "stop": stop, "nshut": rng.randint(1, 4), "late": rng.randint(0, 3) if stop == "shutdown" else 0,
                       "wave2": rng.choice([0, 1, 3]) if r else 0, "slowdrop": rng.choice([0, 300, 1500]) if stop == "shutdown" else 0,
                       # the last proxy handle owned by a route's callback (released on the router thread when that route closes)
-                      "owned": stop == "proxydrop" and k % 2 == 1})
+                      "owned": stop == "proxydrop" and k % 2 == 1,
+                      # shutdown() called from inside a callback that runs on another router's thread
+                      "cross": stop == "shutdown" and k % 4 == 2})
     # routers that never get a route before they are stopped (then late routes are offered)
     for j, stop in enumerate([s for s in ("shutdown", "proxydrop") if s in stops]):
         cases.append({"id": n + 1 + j, "plan": [], "noroutes": True, "threads": 1, "stop": stop, "nshut": 1 + j, "late": 0, "wave2": 0, "slowdrop": 0})
@@ -338,7 +340,7 @@ def gen_router_cases(rng, n, stops):
 def router_line(c):
     return "id=%d plan=%s threads=%d stop=%s nshut=%d late=%d wave2=%d slowdrop=%d%s" % (
         c["id"], ";".join("%d,%d,%d,%s" % (b, a, 1 if d else 0, (x if isinstance(x, str) else "x") if x else "c") for b, a, d, x in c["plan"]) or ("none" if c.get("noroutes") else "0,0,1,c"),
-        c["threads"], c["stop"], c["nshut"], c["late"], c.get("wave2", 0), c.get("slowdrop", 0), " owned=1" if c.get("owned") else "")
+        c["threads"], c["stop"], c["nshut"], c["late"], c.get("wave2", 0), c.get("slowdrop", 0), (" owned=1" if c.get("owned") else "") + (" cross=1" if c.get("cross") else ""))
 
 
 def router_oracle(c, rec, prop):
